@@ -195,21 +195,36 @@ def linearisation(ctx):
     P, G = ctx.P, ctx.G
     gt = P.func(RF.READER + '.get_trace')
     n_dec = 0
+    # (quotient, remainder) of one dividend: as a tuple assignment, two assignments, or divmod()
+    pairs = []
+    singles = {}
     for n in ast.walk(gt.node):
-        if isinstance(n, ast.Assign) and isinstance(n.value, ast.Tuple) and len(n.value.elts) == 2:
-            a, b = n.value.elts
-            if isinstance(a, ast.BinOp) and isinstance(a.op, ast.FloorDiv) and isinstance(b, ast.BinOp) and \
-                    isinstance(b.op, ast.Mod) and U(a.left) == U(b.left):
-                n_dec += 1
-                ra, rb = U(a.right), U(b.right)
-                tg = [U(t) for t in n.targets[0].elts] if isinstance(n.targets[0], ast.Tuple) else []
-                ok = ra == rb and axis_of_text(ra) == 'XL' and len(tg) == 2 and axis_of_text(tg[0]) == 'IL' and \
-                    axis_of_text(tg[1]) == 'XL'
-                if ok:
-                    ctx.ok('C02.7', gt, n, 'trace ordinal is split as (index // n_xl -> IL, index %% n_xl -> XL)')
-                else:
-                    ctx.fail('C02.7', gt, n, 'trace ordinal decomposition `%s` does not use the crossline count as radix for '
-                             '(IL, XL)' % U(n)[:80])
+        if not isinstance(n, ast.Assign):
+            continue
+        if isinstance(n.value, ast.Tuple) and len(n.value.elts) == 2 and isinstance(n.targets[0], ast.Tuple):
+            for t, v in zip(n.targets[0].elts, n.value.elts):
+                if isinstance(v, ast.BinOp) and isinstance(v.op, (ast.FloorDiv, ast.Mod)):
+                    singles.setdefault(U(v.left), []).append((n, U(t), v))
+        elif isinstance(n.value, ast.BinOp) and isinstance(n.value.op, (ast.FloorDiv, ast.Mod)) and isinstance(n.targets[0], ast.Name):
+            singles.setdefault(U(n.value.left), []).append((n, U(n.targets[0]), n.value))
+        elif isinstance(n.value, ast.Call) and U(n.value.func) == 'divmod' and len(n.value.args) == 2 and \
+                isinstance(n.targets[0], ast.Tuple) and len(n.targets[0].elts) == 2:
+            q, r_ = [U(t) for t in n.targets[0].elts]
+            pairs.append((n, q, r_, U(n.value.args[1]), U(n.value.args[1])))
+    for dividend, lst in singles.items():
+        qs = [x for x in lst if isinstance(x[2].op, ast.FloorDiv)]
+        rs = [x for x in lst if isinstance(x[2].op, ast.Mod)]
+        if len(qs) == 1 and len(rs) == 1 and axis_of_text(qs[0][1]) in ('IL', 'XL') and axis_of_text(rs[0][1]) in ('IL', 'XL') \
+                and 'blockshape' not in U(qs[0][2].right):
+            pairs.append((qs[0][0], qs[0][1], rs[0][1], U(qs[0][2].right), U(rs[0][2].right)))
+    for (n, qname, rname, ra, rb) in pairs:
+        n_dec += 1
+        ok = ra == rb and axis_of_text(ra) == 'XL' and axis_of_text(qname) == 'IL' and axis_of_text(rname) == 'XL'
+        if ok:
+            ctx.ok('C02.7', gt, n, 'trace ordinal is split as (index // n_xl -> IL, index %% n_xl -> XL)')
+        else:
+            ctx.fail('C02.7', gt, n, 'trace ordinal decomposition (%s = .. // %s, %s = .. %% %s) does not use the crossline count as '
+                     'radix for (IL, XL)' % (qname, ra, rname, rb))
     if n_dec < 1:
         raise AnalysisError('get_trace: trace ordinal decomposition (index // n, index % n) not found')
     # the bound of the ordinal uses the same grid
